@@ -104,8 +104,19 @@ func gen(r *rand.Rand, idx int, tier string) Input {
 	}
 	nmut := 1 + r.Intn(3)
 	for i := 0; i < nmut; i++ {
-		askAll()
-		switch r.Intn(5) {
+		kind := r.Intn(5)
+		if kind <= 1 && r.Intn(2) == 0 {
+			// the other series' objects are on disk only when the delete runs (no query in between reloads them)
+			if r.Intn(3) == 0 {
+				in.Ops = append(in.Ops, stor.Op{Kind: "restart"})
+			} else {
+				in.Ops = append(in.Ops, stor.Op{Kind: "evict", Cache: "trees", Frac: 1})
+				in.Ops = append(in.Ops, stor.Op{Kind: "evict", Cache: "dicts", Frac: 1})
+			}
+		} else {
+			askAll()
+		}
+		switch kind {
 		case 0, 1: // delete by app or by tags
 			var sel stor.SeriesDef
 			if r.Intn(2) == 0 {
